@@ -197,24 +197,7 @@ class Impl:
             return ("cond", self.from_real(c.b), self.from_real_com(c.c1), self.from_real_com(c.c2))
         if type(c) is C.While:
             return ("while", self.from_real(c.b), self.from_real(c.inv), self.from_real_com(c.c))
-        raise ValueError(c)
-
-    def annotated(self, c):
-        """pre/post lists of every sub-command after compute_wp (shape of Driver.acomTo)."""
-        C = self.com
-        pre = tuple(self.from_real(e) for e in c.pre)
-        post = tuple(self.from_real(e) for e in c.post)
-        if type(c) is C.Skip:
-            return ("skip", pre, post)
-        if type(c) is C.Assign:
-            return ("assign", pre, post)
-        if type(c) is C.Seq:
-            return ("seq", pre, post, self.annotated(c.c1), self.annotated(c.c2))
-        if type(c) is C.Cond:
-            return ("cond", pre, post, self.annotated(c.c1), self.annotated(c.c2))
-        if type(c) is C.While:
-            return ("while", pre, post, self.annotated(c.c))
-        raise ValueError(c)
+        return ("unsupported", repr(c))
 
 
 def has_unsupported(t):
@@ -360,36 +343,63 @@ def norm_negconst_com(c):
     return ("while", norm_negconst(c[1]), norm_negconst(c[2]), norm_negconst_com(c[3]))
 
 
-def hol_eval(t, st, logic):
-    """Value of the HOL term `convert_hol` built (int / bool fragment), None if not understood."""
+class NotUnderstood(Exception):
+    """The HOL reader of the harness met a term outside the fragment it knows (machinery, not a verdict)."""
+
+
+def _state_read(t, svar):
+    """A read of the state: `F k` with a numeral `k` and `F` the state variable `svar` under any number of
+    updates `(F')(a := v)` with numeral `a`.  Returns ("cell", k), or ("term", v) for the update that is
+    read, or None when `t` is not such a read."""
+    if svar is None or not t.is_comb() or not t.arg.is_number():
+        return None
+    f, k = t.fun, int(t.arg.dest_number())
+    while True:
+        if f.is_var() and f.name == svar:
+            return ("cell", k)
+        if f.is_comb("fun_upd", 3) and f.args[1].is_number():
+            if int(f.args[1].dest_number()) == k:
+                return ("term", f.args[2])
+            f = f.args[0]
+            continue
+        return None
+
+
+def hol_eval(t, st, logic, svar=None):
+    """Value (int / bool) of a HOL term of the int / nat + bool fragment in the state `st`
+    (variable name -> value; with `svar`, `svar k` is looked up as st[k]).  Quantifiers over the
+    state are not handled here (see hol_valid_at).  Raises NotUnderstood outside the fragment."""
+    rd = _state_read(t, svar)
+    if rd is not None:
+        return st.get(rd[1], 0) if rd[0] == "cell" else hol_eval(rd[1], st, logic, svar)
     if t.is_var():
         return st.get(t.name, 0)
-    if t.is_number():
-        return int(t.dest_number())
     if t.is_const("true"):
         return True
     if t.is_const("false"):
         return False
     if t.is_not():
-        a = hol_eval(t.arg, st, logic)
+        a = hol_eval(t.arg, st, logic, svar)
         return None if type(a) is not bool else (not a)
     if logic.is_if(t):
         c, a, b = t.args
-        cv = hol_eval(c, st, logic)
+        cv = hol_eval(c, st, logic, svar)
         if type(cv) is not bool:
             return None
-        return hol_eval(a if cv else b, st, logic)
+        return hol_eval(a if cv else b, st, logic, svar)
     if t.is_comb("abs", 1):
-        a = hol_eval(t.arg, st, logic)
+        a = hol_eval(t.arg, st, logic, svar)
         return abs(a) if type(a) is int else None
     if t.is_comb("max", 2):
-        a, b = (hol_eval(x, st, logic) for x in t.args)
+        a, b = (hol_eval(x, st, logic, svar) for x in t.args)
         return max(a, b) if type(a) is int and type(b) is int else None
     if t.is_uminus():
-        a = hol_eval(t.arg, st, logic)
+        a = hol_eval(t.arg, st, logic, svar)
         return -a if type(a) is int else None
+    if t.is_number():
+        return int(t.dest_number())
     if t.is_binop():
-        a, b = hol_eval(t.arg1, st, logic), hol_eval(t.arg, st, logic)
+        a, b = hol_eval(t.arg1, st, logic, svar), hol_eval(t.arg, st, logic, svar)
         if a is None or b is None:
             return None
         if t.is_equals():
@@ -401,20 +411,81 @@ def hol_eval(t, st, logic):
                 return a or b
             if t.is_implies():
                 return (not a) or b
-            return None
+            raise NotUnderstood(str(t))
         if type(a) is int and type(b) is int:
             if t.is_plus():
                 return a + b
             if t.is_minus():
-                return a - b
+                return max(a - b, 0) if svar is not None else a - b      # nat subtraction is truncated
             if t.is_times():
                 return a * b
             if t.is_less_eq():
                 return a <= b
             if t.is_less():
                 return a < b
-        return None
-    return None
+        raise NotUnderstood(str(t))
+    raise NotUnderstood(str(t))
+
+
+def hol_to_ast(t, logic, svar=None, names=None):
+    """HOL term of the fragment -> the harness' tuple AST, in the normal form `hol_norm` gives to
+    expressions (!= is ~(==), >= and > are flipped <= and <, <--> is ==).  `svar k` becomes the
+    variable names[k].  Raises NotUnderstood outside the fragment."""
+    def rec(t):
+        rd = _state_read(t, svar)
+        if rd is not None:
+            if rd[0] == "term":
+                return rec(rd[1])
+            return ("var", names[rd[1]] if names and rd[1] in names else "cell%d" % rd[1])
+        if t.is_var():
+            return ("var", t.name)
+        if t.is_const("true"):
+            return ("bool", True)
+        if t.is_const("false"):
+            return ("bool", False)
+        if t.is_not():
+            return ("un", "not", rec(t.arg))
+        if logic.is_if(t):
+            c, a, b = t.args
+            return ("ite", rec(c), rec(a), rec(b))
+        if t.is_comb("abs", 1):
+            return ("fn1", "abs", rec(t.arg))
+        if t.is_comb("max", 2):
+            return ("fn2", "max", rec(t.args[0]), rec(t.args[1]))
+        if t.is_uminus():
+            return ("un", "neg", rec(t.arg))
+        if t.is_number():
+            return ("int", int(t.dest_number()))
+        if t.is_binop():
+            a, b = rec(t.arg1), rec(t.arg)
+            for test, op in ((t.is_equals, "eq"), (t.is_conj, "and"), (t.is_disj, "or"), (t.is_implies, "imp"), (t.is_plus, "add"),
+                             (t.is_minus, "sub"), (t.is_times, "mul"), (t.is_less_eq, "le"), (t.is_less, "lt")):
+                if test():
+                    return ("bin", op, a, b)
+        raise NotUnderstood(str(t))
+    return rec(t)
+
+
+def hol_norm(e):
+    """The tuple AST `hol_to_ast(convert_hol(e))` would give for the expression `e`."""
+    k = e[0]
+    if k == "int":
+        return ("un", "neg", ("int", -e[1])) if e[1] < 0 else e
+    if k in ("var", "bool"):
+        return e
+    if k == "bin":
+        a, b = hol_norm(e[2]), hol_norm(e[3])
+        o = e[1]
+        if o == "ne":
+            return ("un", "not", ("bin", "eq", a, b))
+        if o == "ge":
+            return ("bin", "le", b, a)
+        if o == "gt":
+            return ("bin", "lt", b, a)
+        if o == "iff":
+            return ("bin", "eq", a, b)
+        return ("bin", o, a, b)
+    return (e[0],) + tuple(hol_norm(x) if isinstance(x, tuple) else x for x in e[1:])
 
 
 # ------------------------------------------------------------------ generators
@@ -530,6 +601,11 @@ def templates(rng):
                             ("seq", ("assign", "x", B("add", V("x"), I(1))), ("assign", "_t", B("add", V("_t"), I(1))))),
                     ("assign", "n1", B("add", V("n1"), I(rng.choice([1, 1, 1, 2]))))))))),
                 B("eq", V("x"), B("mul", V("a"), V("b")))))
+    # linear search: two ways out of the loop, the postcondition only fits one of them (the VCs must not all hold)
+    out.append((TRUE,
+                ("seq", ("assign", "a", I(0)),
+                 ("while", B("and", B("lt", V("a"), V("b")), B("ne", V("x"), V("a"))), B("le", I(0), V("a")), ("assign", "a", B("add", V("a"), I(1))))),
+                rng.choice([B("eq", V("x"), V("a")), B("or", B("eq", V("x"), V("a")), B("le", V("b"), V("a")))])))
     # countdown with a wrong-able invariant
     out.append((B("le", I(0), V("a")),
                 ("while", B("lt", I(0), V("a")), B("le", I(rng.choice([0, 0, 1])), V("a")), ("assign", "a", B("sub", V("a"), I(1)))),
@@ -538,28 +614,6 @@ def templates(rng):
 
 
 # ------------------------------------------------------------------ the VC stream
-def real_vcs(impl, c_real):
-    """The VC expression objects get_lines builds, recomputed from the real pre/post lists in
-    get_lines' order (cross-checked against get_vcs' strings by the caller)."""
-    X, C = impl.expr, impl.com
-    out = []
-
-    def add_vc(ls):
-        for i in range(len(ls) - 1):
-            out.append(ls[i + 1] if ls[i] == X.true else X.implies(ls[i], ls[i + 1]))
-
-    def rec(cmd):
-        add_vc(cmd.pre)
-        if type(cmd) in (C.Seq, C.Cond):
-            rec(cmd.c1)
-            rec(cmd.c2)
-        elif type(cmd) is C.While:
-            rec(cmd.c)
-            add_vc(cmd.post)
-    rec(c_real)
-    return out
-
-
 _VIOL_COUNT = {}
 
 
@@ -578,8 +632,20 @@ def classify_exc(e):
     return type(e).__name__
 
 
+def real_parse_cond(impl, s):
+    """cond_parser on a string: ("ok", real object) | ("err", exception class).  Implementation call only."""
+    try:
+        with time_limit(30):
+            return ("ok", impl.parser2.cond_parser.parse(s))
+    except Timeout:
+        raise
+    except Exception as ex:  # noqa
+        return ("err", classify_exc(ex))
+
+
 def vc_case(ctx, impl, logic, pre, c, post, label, lines, pending):
-    """Run the implementation on one (pre, c, post); queue the model request; run oracle (a)/(b)."""
+    """Run the implementation on one (pre, c, post) and keep what `get_lines` shows to the user: the VC
+    strings and the VC HOL terms, in its order.  Queue the model request; run oracles (a) and (b)."""
     vs = sorted(vars_of(pre, set()) | vars_of(c, set()) | vars_of(post, set()))
     ctxt = {v: "int" for v in vs}
     key = sexp.dumps(["vcs", s_com(c), s_expr(pre), s_expr(post)])
@@ -588,69 +654,82 @@ def vc_case(ctx, impl, logic, pre, c, post, label, lines, pending):
         with time_limit(60):
             cr = impl.to_real_com(c)
             cr.pre = [impl.to_real(pre)]
-            ret = cr.compute_wp(impl.to_real(post))
+            cr.compute_wp(impl.to_real(post))
             lines_real = cr.get_lines(ctxt)
             vcs_str = [l['str'] for l in lines_real if l['ty'] == 'vc']
             vcs_hol = [l['prop'] for l in lines_real if l['ty'] == 'vc']
-            vcs_obj = real_vcs(impl, cr)
-            ann = impl.annotated(cr)
-            vcs_ast = [impl.from_real(v) for v in vcs_obj]
+            also = cr.get_vcs(ctxt)
     except Timeout:
         raise
     except Exception as e:  # noqa
         ctx.count("vcs:impl-raise:" + classify_exc(e))
         viol(ctx, "vcs-raise:%s:%s" % (classify_exc(e), key), "compute_wp/get_lines raised %s: %s on %s" % (classify_exc(e), str(e)[:100], key),
-                      {"kind": "vcs", "pre": pre, "com": c, "post": post})
+             {"kind": "vcs", "pre": pre, "com": c, "post": post})
         return
-    if [str(v) for v in vcs_obj] != vcs_str or not (ret == cr.pre[0]):
-        ctx.broken("correspondence:c20:harness-add_vc", "harness mirror of add_vc out of sync on %s" % key)
+    from kernel.term import Term
+    if also != vcs_str or not all(isinstance(h, Term) for h in vcs_hol):
+        viol(ctx, "vcs-lines-inconsistent:" + key, "get_vcs and the 'vc' lines of get_lines disagree, or a 'prop' is not a HOL term: %s / %s" % (also, vcs_str),
+             {"kind": "vcs", "pre": pre, "com": c, "post": post})
         return
-    rec.update(ann=ann, vcs_ast=vcs_ast, vcs_str=vcs_str)
+    # harness-side reading of the HOL terms (a mirror: an exception here is a machinery error)
+    vcs_ast = [hol_to_ast(h, logic) for h in vcs_hol]
+    rec.update(vcs_ast=vcs_ast, vcs_str=vcs_str)
     lines.append(key)
     pending.append(rec)
-    nontriv = depth(c) >= 1 and len(vcs_ast) >= 1
+    nontriv = depth(c) >= 1 and len(vcs_str) >= 1
     ctx.case(("vcs", key), nontrivial=nontriv)
     ctx.count("vcs:%s:depth%d" % (label, depth(c)))
-    # ---- oracle (b) on every VC: string re-parsed by the real parser, and the HOL term, mean the same
-    grid = [dict(zip(vs, vals)) for vals in itertools.product(GRID, repeat=len(vs))] if len(vs) <= 4 else None
-    for vc, s, h in zip(vcs_ast, vcs_str, vcs_hol):
-        check_print_parse(ctx, impl, logic, vc, s, h, vs, "vc")
+    # ---- oracle (b) on every VC line: the string shown, read back by the real parser, means what the HOL term means
+    for a, st_, h in zip(vcs_ast, vcs_str, vcs_hol):
+        check_shown_vc(ctx, impl, logic, a, st_, h, vs, rec)
     # ---- oracle (a)
-    if grid is None:
+    if len(vs) <= 4:
+        grid = [dict(zip(vs, vals)) for vals in itertools.product(GRID, repeat=len(vs))]
+        oracle_a(ctx, logic, rec, vs, grid, vcs_hol)
+
+
+def small_grid(vs):
+    return [dict(zip(vs, vals)) for vals in itertools.product(GRID if len(vs) <= 3 else (-2, 0, 1), repeat=len(vs))]
+
+
+def check_shown_vc(ctx, impl, logic, hol_ast, s, hol, vs, rec):
+    """One 'vc' line of get_lines: `s` (shown, re-entered by the user) against `hol` (what has to be proved)."""
+    r = real_parse_cond(impl, s)
+    replay = {"kind": "vcs", "pre": rec["pre"], "com": rec["com"], "post": rec["post"]}
+    if r[0] != "ok":
+        viol(ctx, "print-unparsable:%s" % s, "the VC shown as %r is rejected by cond_parser (%s)" % (s, r[1]), replay)
         return
-    oracle_a(ctx, logic, rec, vs, grid, vcs_hol)
+    back = impl.from_real(r[1])
+    if has_unsupported(back):
+        ctx.broken("harness:from_real", "cannot read the parse of %r" % s)
+        return
+    ctx.count("pp:vc:%s" % ("identical" if hol_norm(back) == hol_ast else "different-tree"))
+    for st in small_grid(vs):
+        a, b = ev(back, st), hol_eval(hol, st, logic)
+        if a != b:
+            viol(ctx, "vc-shown-differs:%s" % s,
+                 "a VC is shown as %r (parser2 reads it as a condition that is %s at %s) but the HOL term to prove for it is %s there"
+                 % (s, a, st, b), dict(replay, state=st, shown=s))
+            return
 
 
 def oracle_a(ctx, logic, rec, vs, grid, vcs_hol):
     pre, c, post = rec["pre"], rec["com"], rec["post"]
-    vcs_ast = rec["vcs_ast"]
-    grid_ok = None      # lazily: do all VCs (HOL terms) hold on the whole grid
 
     def vcs_hold_at(st):
-        for h, a in zip(vcs_hol, vcs_ast):
-            try:
-                v = hol_eval(h, st, logic)
-            except Exception:  # noqa
-                v = None
-            if v is None:
-                v = ev(a, st)
-            if v is not True:
-                return False
-        return True
-    # quick filter: count cases where the VCs hold on the grid (non-vacuous instances)
+        return all(hol_eval(h, st, logic) is True for h in vcs_hol)
     grid_ok = all(vcs_hold_at(st) for st in grid)
     ctx.count("oracle-a:vcs-hold-on-grid" if grid_ok else "oracle-a:some-vc-fails-on-grid")
     if not grid_ok:
         return
-    nrun = nterm = 0
+    nterm = 0
     for st in grid:
         if ev(pre, st) is not True:
             continue
         visited = []
-        nrun += 1
         try:
             fin = run_ref(c, st, [3000], visited)
-        except (OutOfFuel, Stuck, RecursionError):
+        except (OutOfFuel, Stuck):
             continue
         nterm += 1
         if ev(post, fin) is True:
@@ -659,9 +738,9 @@ def oracle_a(ctx, logic, rec, vs, grid, vcs_hol):
         # a counterexample to soundness iff the VCs also hold at every visited state.
         if all(vcs_hold_at(v) for v in visited):
             viol(ctx, "vcs-unsound:" + rec["key"],
-                          "all VCs hold on the grid and on every visited state, but from %s the program ends in %s where the postcondition is false"
-                          % (st, {k: fin.get(k, 0) for k in vs}),
-                          {"kind": "vcs", "pre": pre, "com": c, "post": post, "init": st, "final": fin, "vcs": rec["vcs_str"]})
+                 "all VCs hold on the grid and on every visited state, but from %s the program ends in %s where the postcondition is false"
+                 % (st, {k: fin.get(k, 0) for k in vs}),
+                 {"kind": "vcs", "pre": pre, "com": c, "post": post, "init": st, "final": fin, "vcs": rec["vcs_str"]})
             return
         ctx.count("oracle-a:vc-fails-off-grid")
     if nterm:
@@ -670,59 +749,54 @@ def oracle_a(ctx, logic, rec, vs, grid, vcs_hol):
 
 
 def check_print_parse(ctx, impl, logic, e, s, hol, vs, what):
-    """Oracle (b) for one condition `e` whose implementation-printed form is `s` (and HOL form `hol`)."""
-    grid = [dict(zip(vs, vals)) for vals in itertools.product(GRID if len(vs) <= 3 else (-2, 0, 1), repeat=len(vs))]
-    try:
-        back = impl.from_real(impl.parser2.cond_parser.parse(s))
-    except Timeout:
-        raise
-    except Exception as ex:  # noqa
-        viol(ctx, "print-unparsable:%s" % s, "printed %s %r is rejected by cond_parser (%s)" % (what, s, classify_exc(ex)),
-                      {"kind": "pp", "expr": e, "printed": s})
+    """Oracle (b) for a generated condition `e` whose implementation-printed form is `s` (HOL form `hol`, or None)."""
+    r = real_parse_cond(impl, s)
+    if r[0] != "ok":
+        viol(ctx, "print-unparsable:%s" % s, "printed %s %r is rejected by cond_parser (%s)" % (what, s, r[1]),
+             {"kind": "pp", "expr": e, "printed": s})
         return
+    back = impl.from_real(r[1])
     ctx.count("pp:%s:%s" % (what, "identical" if back == norm_negconst(e) else "different-tree"))
+    grid = small_grid(vs)
     if back != norm_negconst(e):
         for st in grid:
             if ev(back, st) != ev(e, st):
                 viol(ctx, "print-parse-meaning:%s" % s,
-                              "%s prints as %r, which parser2 reads as an expression with a different value at %s" % (what, s, st),
-                              {"kind": "pp", "expr": e, "printed": s, "reparsed": back, "state": st})
+                     "%s prints as %r, which parser2 reads as an expression with a different value at %s" % (what, s, st),
+                     {"kind": "pp", "expr": e, "printed": s, "reparsed": back, "state": st})
                 return
     if hol is not None:
         from kernel.term import Term
         if not isinstance(hol, Term):
             viol(ctx, "convert-hol-not-a-term:%s" % s, "convert_hol of %r returned a %s, not a HOL term" % (s, type(hol).__name__),
-                          {"kind": "pp", "expr": e, "printed": s})
+                 {"kind": "pp", "expr": e, "printed": s})
             return
         for st in grid:
-            try:
-                hv = hol_eval(hol, st, logic)
-            except Exception:  # noqa  (a term the evaluator does not understand)
-                hv = None
-            evv = ev(e, st)
-            if hv is None and evv is not None:
-                ctx.count("hol-eval:not-understood")
-                break
+            hv, evv = hol_eval(hol, st, logic), ev(e, st)
             if hv != evv:
                 viol(ctx, "convert-hol-meaning:%s" % s, "convert_hol of %r denotes %s at %s, the expression %s" % (s, hv, st, evv),
-                              {"kind": "pp", "expr": e, "printed": s, "state": st})
+                     {"kind": "pp", "expr": e, "printed": s, "state": st})
                 return
 
 
 def compare_vcs(ctx, out, pending):
+    """Model against implementation on the observable result: the VCs as strings and as HOL terms.  The
+    property does not fix an order, so both are compared as multisets."""
     ndis = 0
     for line, rec in zip(out, pending):
-        try:
-            x = sexp.loads(line)
-            m_ann, m_vcs, m_strs = u_acom(x[1]), [u_expr(v) for v in x[2]], [sexp.dec(s) for s in x[3]]
-        except Exception:  # noqa
-            m_ann = m_vcs = m_strs = None
-        if m_ann != rec["ann"] or m_vcs != rec["vcs_ast"] or m_strs != rec["vcs_str"]:
+        x = sexp.loads(line)
+        if x[4] != ["T", "T", "T", "T"]:
+            # the decidable hypotheses of sem_adequate_ws / print_parse_* must cover what is generated and what compute_wp builds
+            ctx.broken("hypotheses:c20:wf", "wsCom / wfC pre / wfC post / wfC of all VCs = %s on %s" % (x[4], rec["key"]))
+        ctx.count("wf-hypotheses-checked")
+        m_vcs = sorted(repr(hol_norm(u_expr(v))) for v in x[2])
+        m_strs = sorted(sexp.dec(t) for t in x[3])
+        i_vcs, i_strs = sorted(repr(v) for v in rec["vcs_ast"]), sorted(rec["vcs_str"])
+        if m_vcs != i_vcs or m_strs != i_strs:
             ndis += 1
             if ndis <= 3:
-                what = "pre/post lists" if m_ann != rec["ann"] else "VC list" if m_vcs != rec["vcs_ast"] else "printed VCs"
                 ctx.broken("correspondence:c20:vcs", "%s differ on %s: impl=%s model=%s" % (
-                    what, rec["key"], rec["vcs_str"], m_strs))
+                    "VCs (HOL terms)" if m_vcs != i_vcs else "printed VCs", rec["key"], rec["vcs_str"], [sexp.dec(t) for t in x[3]]))
                 ctx.coverage["disagreements_checked"] += 1
     return ndis
 
@@ -744,8 +818,13 @@ def vcs_stage(ctx, impl, logic):
         c = gen_com(rng, rng.randint(1, 4), vs, loops=rng.random() < 0.25, inv=lambda r: TRUE)
         post = gen_cond(rng, rng.randint(0, 2), vs, ad=1)
         try:
-            wp = impl.from_real(impl.to_real_com(c).compute_wp(impl.to_real(post)))
-        except Exception:  # noqa
+            wp_real = impl.to_real_com(c).compute_wp(impl.to_real(post))
+        except Exception:  # noqa  (the implementation fails on this program: vc_case reports it for the cases it is given)
+            ctx.count("vcs:pre=wp:impl-raise")
+            continue
+        wp = impl.from_real(wp_real)
+        if has_unsupported(wp):
+            ctx.broken("harness:from_real", "cannot read the weakest precondition %r" % (wp,))
             continue
         pre = wp if rng.random() < 0.7 else ("bin", "and", gen_atom(rng, vs), wp)
         vc_case(ctx, impl, logic, pre, c, post, "pre=wp", lines, pending)
@@ -754,6 +833,10 @@ def vcs_stage(ctx, impl, logic):
         vs = VARS[:rng.choice([1, 2, 2, 3])]
         inv = gen_cond(rng, rng.randint(0, 1), vs, ad=1)
         b = gen_atom(rng, vs, ad=1)
+        if rng.random() < 0.45:     # compound guards: the exit condition is the negation of a conjunction / disjunction
+            b = ("bin", rng.choice(["and", "and", "or"]), b, gen_atom(rng, vs, ad=1))
+            if rng.random() < 0.3:
+                b = ("bin", rng.choice(["and", "or"]), gen_atom(rng, vs, ad=0), b)
         body = gen_com(rng, rng.randint(0, 2), vs, loops=rng.random() < 0.2, inv=lambda r: rng.choice([TRUE, inv]))
         post = rng.choice([inv, ("bin", "and", inv, ("un", "not", b)), ("bin", "or", inv, gen_atom(rng, vs))])
         c = ("while", b, inv, body)
@@ -810,20 +893,21 @@ def parse_real(impl, s, com=False):
     try:
         with time_limit(30):
             r = (impl.parser2.com_parser if com else impl.parser2.cond_parser).parse(s)
-        t = impl.from_real_com(r) if com else impl.from_real(r)
-        if has_unsupported(t):
-            return ("unsupported",)
-        if vars_of(t, set()) & KEYWORDS:
-            # Lark's contextual lexer reads a keyword as an identifier where the keyword cannot occur;
-            # such names are outside the model's domain (identifiers that are not keywords)
-            return ("unsupported",)
-        return ("ok", t)
     except Timeout:
         raise
     except NotImplementedError:
         return ("unsupported",)
     except Exception as e:  # noqa
         return ("err", classify_exc(e))
+    # reading the result is harness code: outside the try
+    t = impl.from_real_com(r) if com else impl.from_real(r)
+    if has_unsupported(t):
+        return ("unsupported",)
+    if vars_of(t, set()) & KEYWORDS:
+        # Lark's contextual lexer reads a keyword as an identifier where the keyword cannot occur;
+        # such names are outside the model's domain (identifiers that are not keywords)
+        return ("unsupported",)
+    return ("ok", t)
 
 
 def model_parse_result(line, com=False):
@@ -876,6 +960,7 @@ def pp_stage(ctx, impl, logic):
         lines.append(sexp.dumps(["pp", s_expr(e)]))
         lines.append(sexp.dumps(["parsecond", sexp.enc(s if s is not None else "?")]))
         lines.append(sexp.dumps(["lexpp", s_expr(e)]))
+        lines.append(sexp.dumps(["wf", s_expr(e)]))
         ctx.case(("pp", s), nontrivial=e[0] != "bool")
     out = ctx.lean_driver(EXE, lines)
     if out is None or len(out) != len(lines):
@@ -883,11 +968,15 @@ def pp_stage(ctx, impl, logic):
         out = None
     else:
         # the token-level printer of the theorems is the lexed string-level printer
-        bad = [conds[i] for i in range(len(conds)) if out[3 * i + 2] != "T"]
+        bad = [conds[i] for i in range(len(conds)) if out[4 * i + 2] != "T"]
         ctx.count("lex(pp e) == toks e", len(conds) - len(bad))
         if bad:
             ctx.broken("correspondence:c20:toks", "lex (pp e) differs from toks e for %s" % sexp.dumps(s_expr(bad[0])))
-        out = [x for i, x in enumerate(out) if i % 3 != 2]
+        notwf = [conds[i] for i in range(len(conds)) if sexp.loads(out[4 * i + 3])[0] != "T"]
+        ctx.count("wfC e (hypothesis of print_parse_*)", len(conds) - len(notwf))
+        if notwf:
+            ctx.broken("hypotheses:c20:wf", "a generated condition is outside wfC: %s" % sexp.dumps(s_expr(notwf[0])))
+        out = [x for i, x in enumerate(out) if i % 4 < 2]
     ndis = 0
     for i, (e, s) in enumerate(zip(conds, strs)):
         if s is None:
@@ -923,17 +1012,29 @@ def pp_stage(ctx, impl, logic):
         ctx.broken("correspondence:c20:driver", "model driver unavailable (parse stream)")
         return
     ndis = 0
+    parsed = []
     for s, line in zip(pstrs, out2):
         r_p, m_p = parse_real(impl, s), model_parse_result(line)
         ctx.case(("parse", s), nontrivial=True)
         ctx.count("parse:%s" % r_p[0])
         if r_p[0] == "unsupported":
             continue
+        if r_p[0] == "ok":
+            parsed.append(r_p[1])
         if (r_p[0] == "ok") != (m_p[0] == "ok") or (r_p[0] == "ok" and r_p[1] != m_p[1]):
             ndis += 1
             if ndis <= 3:
                 ctx.broken("correspondence:c20:parse", "string %r: impl %s, model %s" % (s, r_p, m_p))
                 ctx.coverage["disagreements_checked"] += 1
+    # whatever the real parser returns is in the assertion language of the theorems (wfC)
+    out3 = ctx.lean_driver(EXE, [sexp.dumps(["wf", s_expr(e)]) for e in parsed]) if parsed else []
+    if out3 is None or len(out3) != len(parsed):
+        ctx.broken("correspondence:c20:driver", "model driver unavailable (wf of parser results)")
+        return
+    notwf = [e for e, l in zip(parsed, out3) if sexp.loads(l)[0] != "T"]
+    ctx.count("wfC of cond_parser results", len(parsed) - len(notwf))
+    if notwf:
+        ctx.broken("hypotheses:c20:wf", "cond_parser returned a condition outside wfC: %s" % sexp.dumps(s_expr(notwf[0])))
 
 
 def com_pp_stage(ctx, impl):
@@ -1022,7 +1123,7 @@ def check_com_roundtrip(ctx, impl, c):
                 res.append(tuple(f.get(v, 0) for v in vs))
             except OutOfFuel:
                 res.append("fuel")
-            except (Stuck, RecursionError):
+            except Stuck:
                 res.append("stuck")
         if "fuel" not in res and res[0] != res[1]:
             viol(ctx, "print-com:seq-after-cond" if seq_after_cond(c) else "print-com-meaning:" + text,
@@ -1199,15 +1300,17 @@ class NatFront:
     def cell(self, name):
         """The state cell of `name`, or None when the parser rejects an assignment to it."""
         if name not in self._cells:
+            c = None
             try:
                 with time_limit(10):
                     c = self.P1.parse_com("%s := 0" % name)
-                a = c.args[0]
-                self._cells[name] = int(a.dest_number()) if c.is_comb("Assign", 2) and a.is_number() else None
             except Timeout:
                 raise
-            except Exception:  # noqa
-                self._cells[name] = None
+            except Exception:  # noqa  (the parser rejects the name)
+                pass
+            self._cells[name] = None
+            if c is not None and c.is_comb("Assign", 2) and c.args[0].is_number():
+                self._cells[name] = int(c.args[0].dest_number())
         return self._cells[name]
 
     def state(self, init):
@@ -1245,14 +1348,15 @@ def alias_witness(ctx, F, n1, n2, found_in):
     c = ("seq", ("assign", n1, ("int", 1)), ("assign", n2, ("int", 2)))
     src = nat_com_str(c)
     replay = {"kind": "sem", "src": src, "init": {}, "com": c}
+    pt = None
     try:
         with time_limit(30):
             pt = imp.eval_Sem(F.P1.parse_com(src), F.state({}))
-        d = decode_cells(pt.prop.args[2])
     except Timeout:
         raise
-    except Exception:  # noqa
-        d = None
+    except Exception:  # noqa  (the witness program itself is not evaluable: report the aliasing without a final state)
+        pass
+    d = decode_cells(pt.prop.args[2]) if pt is not None else None
     fin = None if d is None else {n1: d.get(F.cell(n1), 0), n2: d.get(F.cell(n2), 0)}
     viol(ctx, "sem-alias:%s=%s" % tuple(sorted((n1, n2))),
          "the distinct variables %s and %s are stored in the same state cell %s (seen in %r): eval_Sem proves final state %s for %r, "
@@ -1273,7 +1377,7 @@ def sem_case(ctx, F, c, init, check_proof=False):
     except OutOfFuel:
         ctx.count("sem:ref-diverges")
         return None
-    except (Stuck, RecursionError):
+    except Stuck:
         return None
     import sys
     old_limit = sys.getrecursionlimit()
@@ -1441,7 +1545,7 @@ def vcgnat_case(ctx, F, pre, c, post):
             continue
         try:
             fin = run_ref(c, st, [400])
-        except (OutOfFuel, Stuck, RecursionError):
+        except (OutOfFuel, Stuck):
             continue
         if ev(post, fin) is not True:
             viol(ctx, "vcgnat-unsound:" + key,
@@ -1475,7 +1579,7 @@ def vcgnat_stage(ctx):
             for st in ({}, {u: 1 for u in vs}):
                 try:
                     guesses.append(B("eq", V(v), I(run_ref(c, dict(st), [200]).get(v, 0))))
-                except (OutOfFuel, Stuck, RecursionError):
+                except (OutOfFuel, Stuck):
                     pass
             guesses.append(B("eq", V(v), I(rng.randint(0, 4))))
             guesses.append(B("eq", V(v), V(rng.choice(vs))))
@@ -1490,6 +1594,265 @@ def vcgnat_stage(ctx):
             ctx.count("vcgnat:skipped-over-budget")
             continue
         vcgnat_case(ctx, F, pre, c, post)
+
+
+# ------------------------------------------------------------------ imp.vcg on Hoare triples built as HOL terms
+class HolBuilder:
+    """Programs and assertions over nat states `s : nat => nat` as HOL terms, built with the
+    constructors of imperative/imp.py (not through imperative/parser.py)."""
+
+    def __init__(self):
+        from imperative import imp
+        from kernel.type import NatType, TFun
+        from kernel.term import Var, Nat, Lambda, Eq, Not, And, Or, Implies, true
+        from data import nat
+        from logic import logic
+        self.imp, self.nat, self.logic = imp, nat, logic
+        self.Nat, self.Lambda, self.Eq, self.Not, self.And, self.Or, self.Implies, self.true = Nat, Lambda, Eq, Not, And, Or, Implies, true
+        self.NatType = NatType
+        self.T = TFun(NatType, NatType)
+        self.s = Var("s", self.T)
+
+    def expr(self, e, cells):
+        k = e[0]
+        if k == "var":
+            return self.s(self.Nat(cells[e[1]]))
+        if k == "int":
+            return self.Nat(e[1])
+        if k == "bool":
+            assert e[1] is True
+            return self.true
+        if k == "un":
+            assert e[1] == "not"
+            return self.Not(self.expr(e[2], cells))
+        if k == "ite":
+            return self.logic.mk_if(*[self.expr(x, cells) for x in e[1:]])
+        a, b = self.expr(e[2], cells), self.expr(e[3], cells)
+        o = e[1]
+        if o == "add":
+            return self.nat.plus(a, b)
+        if o == "mul":
+            return self.nat.times(a, b)
+        if o == "eq":
+            return self.Eq(a, b)
+        if o == "ne":
+            return self.Not(self.Eq(a, b))
+        if o == "le":
+            return self.nat.less_eq(a, b)
+        if o == "lt":
+            return self.nat.less(a, b)
+        return {"and": self.And, "or": self.Or, "imp": self.Implies}[o](a, b)
+
+    def pred(self, e, cells):
+        return self.Lambda(self.s, self.expr(e, cells))
+
+    def com(self, c, cells):
+        imp, T = self.imp, self.T
+        k = c[0]
+        if k == "skip":
+            return imp.Skip(T)
+        if k == "assign":
+            return imp.Assign(self.NatType, self.NatType)(self.Nat(cells[c[1]]), self.pred(c[2], cells))
+        if k == "seq":
+            return imp.Seq(T)(self.com(c[1], cells), self.com(c[2], cells))
+        if k == "cond":
+            return imp.Cond(T)(self.pred(c[1], cells), self.com(c[2], cells), self.com(c[3], cells))
+        return imp.While(T)(self.pred(c[1], cells), self.pred(c[2], cells), self.com(c[3], cells))
+
+
+def gen_hcond(rng, d, vs):
+    """Assertions over nat variables: comparisons of +,* expressions under &, |, -->, ~, if-then-else."""
+    if d <= 0 or rng.random() < 0.35:
+        if rng.random() < 0.08:
+            return TRUE
+        return ("bin", rng.choice(REL), gen_nat_arith(rng, 1, vs), gen_nat_arith(rng, 1, vs))
+    k = rng.random()
+    if k < 0.6:
+        return ("bin", rng.choice(["and", "and", "or", "imp"]), gen_hcond(rng, d - 1, vs), gen_hcond(rng, d - 1, vs))
+    if k < 0.85:
+        return ("un", "not", gen_hcond(rng, d - 1, vs))
+    return ("ite", gen_hcond(rng, d - 1, vs), gen_hcond(rng, d - 1, vs), gen_hcond(rng, d - 1, vs))
+
+
+def gen_hcom(rng, d, vs, inv):
+    r = rng.random()
+    if d <= 0 or r < 0.25:
+        if rng.random() < 0.12:
+            return ("skip",)
+        return ("assign", rng.choice(vs), gen_nat_arith(rng, 2, vs))
+    if r < 0.55:
+        return ("seq", gen_hcom(rng, d - 1, vs, inv), gen_hcom(rng, d - 1, vs, inv))
+    if r < 0.8:
+        return ("cond", gen_hcond(rng, 1, vs), gen_hcom(rng, d - 1, vs, inv), gen_hcom(rng, d - 1, vs, inv))
+    return ("while", gen_hcond(rng, 1, vs), inv(rng), gen_hcom(rng, d - 1, vs, inv))
+
+
+def vcghol_case(ctx, H, pre, c, post, label, lines, pending):
+    from kernel import theory
+    names = sorted(vars_of(pre, set()) | vars_of(c, set()) | vars_of(post, set()))
+    cells = {v: i for i, v in enumerate(names)}
+    key = sexp.dumps(["vcsh", s_com(c), s_expr(pre), s_expr(post)])
+    replay = {"kind": "vcghol", "pre": pre, "com": c, "post": post}
+    goal = H.imp.Valid(H.T)(H.pred(pre, cells), H.com(c, cells), H.pred(post, cells))      # harness-built input
+    try:
+        with hard_time_limit(60):
+            pt = H.imp.vcg_norm(H.T, goal)
+            hyps, prop = list(pt.hyps), pt.prop
+            th_checked = theory.check_proof(pt.export()) if label == "checked" else None
+    except Timeout:
+        ctx.count("vcghol:timeout")
+        return
+    except Exception as e:  # noqa
+        viol(ctx, "vcghol-raise:%s:%s" % (classify_exc(e), key), "imp.vcg_norm raised %s: %s" % (classify_exc(e), str(e)[:100]), replay)
+        return
+    assums, concl = prop.strip_implies()
+    if hyps or concl != goal or (th_checked is not None and th_checked.prop != prop):
+        viol(ctx, "vcghol-other-theorem:" + key, "vcg_norm returned %s |- %s, not conditions --> the given triple" % (hyps, prop), replay)
+        return
+    # the conditions as the user gets them: closed formulas `!s. body`
+    bodies = []
+    for a in assums:
+        vs_, body = a.strip_forall()
+        if len(vs_) != 1:
+            raise NotUnderstood("a condition of vcg_norm is not of the form !s. body: %s" % a)
+        bodies.append((vs_[0].name, body))
+    vcs_ast = [hol_to_ast(b, H.logic, svar=sv, names={i: v for v, i in cells.items()}) for sv, b in bodies]
+    ctx.case(("vcghol", key), nontrivial=depth(c) >= 1)
+    ctx.count("vcghol:%s:depth%d" % (label, depth(c)))
+    lines.append(key)
+    pending.append({"key": key, "vcs_ast": vcs_ast})
+    if len(names) > 4:
+        return
+
+    def cellstate(st):
+        return {cells[v]: x for v, x in st.items()}
+
+    def hold_at(st):
+        cs = cellstate(st)
+        return all(hol_eval(b, cs, H.logic, svar=sv) is True for sv, b in bodies)
+    grid = [dict(zip(names, vals)) for vals in itertools.product((0, 1, 2, 3), repeat=len(names))]
+    if not all(hold_at(st) for st in grid):
+        ctx.count("vcghol:some-condition-fails")
+        return
+    ctx.count("vcghol:conditions-hold-on-grid")
+    for st in grid:
+        if ev(pre, st) is not True:
+            continue
+        visited = []
+        try:
+            fin = run_ref(c, st, [2000], visited)
+        except (OutOfFuel, Stuck):
+            continue
+        if ev(post, fin) is True:
+            continue
+        if all(hold_at(v) for v in visited):
+            viol(ctx, "vcghol-unsound:" + key,
+                 "imp.vcg_norm proves  %s  and all %d conditions hold on the grid 0..3 and on every visited state, but from %s "
+                 "the program ends in %s where the postcondition is false" % (prop, len(assums), st, {k: fin.get(k, 0) for k in names}),
+                 dict(replay, init=st))
+            return
+        ctx.count("vcghol:condition-fails-off-grid")
+    ctx.count("vcghol:nonvacuous")
+
+
+def vcghol_stage(ctx):
+    H = HolBuilder()
+    rng = ctx.rng("vcghol")
+    lines, pending = [], []
+    n = ctx.scale(90, 1200)
+    V, I = (lambda x: ("var", x)), (lambda k: ("int", k))
+    B = lambda o, a, b: ("bin", o, a, b)
+    # hand-written: count up, multiplication by repeated addition (imp_test.testVCGWhile), conditional
+    fixed = [(B("le", V("a"), V("b")), ("while", B("lt", V("a"), V("b")), B("le", V("a"), V("b")), ("assign", "a", B("add", V("a"), I(1)))), B("eq", V("a"), V("b"))),
+             (B("and", B("eq", V("a"), I(0)), B("eq", V("b"), I(0))),
+              ("while", B("ne", V("a"), V("c")), B("eq", V("b"), B("mul", V("a"), V("d"))),
+               ("seq", ("assign", "b", B("add", V("b"), V("d"))), ("assign", "a", B("add", V("a"), I(1))))), B("eq", V("b"), B("mul", V("c"), V("d")))),
+             (TRUE, ("cond", B("eq", V("a"), V("b")), ("skip",), ("assign", "a", V("b"))), B("eq", V("a"), V("b"))),
+             (TRUE, ("seq", ("assign", "a", I(1)), ("cond", B("lt", V("a"), I(1)), ("assign", "b", I(0)), ("assign", "b", I(1)))), B("eq", V("b"), I(1)))]
+    for pre, c, post in fixed:
+        vcghol_case(ctx, H, pre, c, post, "checked", lines, pending)
+    import time
+    t0, budget = time.time(), ctx.scale(50, 400)
+    for i in range(n):
+        if time.time() - t0 > budget:
+            ctx.count("vcghol:skipped-over-budget")
+            continue
+        vs = ["a", "b", "c"][:rng.choice([1, 2, 2, 3])]
+        r = rng.random()
+        if r < 0.3:        # everything random
+            c = gen_hcom(rng, rng.randint(0, 3), vs, lambda g: gen_hcond(g, 1, vs))
+            pre, post = gen_hcond(rng, 1, vs), gen_hcond(rng, 1, vs)
+        elif r < 0.65:     # loop-free, precondition strong enough by construction: judged by execution
+            c = gen_hcom(rng, rng.randint(1, 3), vs, lambda g: TRUE)
+            if has_loop(c):
+                c = ("cond", gen_hcond(rng, 1, vs), ("assign", vs[0], gen_nat_arith(rng, 1, vs)), ("skip",))
+            post = gen_hcond(rng, 1, vs)
+            # strongest guess: the precondition pins the initial state, the condition then holds iff the run from it satisfies post
+            st0 = {v: rng.randint(0, 2) for v in vs}
+            pre = None
+            for v in vs:
+                eqn = B("eq", V(v), I(st0[v]))
+                pre = eqn if pre is None else B("and", eqn, pre)
+        else:              # loops with pre = invariant, post implied by invariant & ~guard
+            inv = gen_hcond(rng, 1, vs)
+            b = gen_hcond(rng, rng.randint(0, 1), vs)
+            body = gen_hcom(rng, rng.randint(0, 2), vs, lambda g: rng.choice([TRUE, inv]))
+            c = ("while", b, inv, body)
+            post = rng.choice([inv, B("and", inv, ("un", "not", b)), B("or", inv, gen_hcond(rng, 0, vs))])
+            pre = inv
+        vcghol_case(ctx, H, pre, c, post, "checked" if i % 10 == 0 else "random", lines, pending)
+    out = ctx.lean_driver(EXE, lines) if lines else []
+    if out is None or len(out) != len(lines):
+        ctx.broken("correspondence:c20:driver", "model driver unavailable (vcghol stream)")
+        return
+    ndis = 0
+    for line, rec in zip(out, pending):
+        m = sorted(repr(hol_norm(u_expr(v))) for v in sexp.loads(line))
+        i_ = sorted(repr(v) for v in rec["vcs_ast"])
+        if m != i_:
+            ndis += 1
+            if ndis <= 3:
+                ctx.broken("correspondence:c20:vcghol", "conditions of imp.vcg_norm differ from the model's on %s: impl=%s model=%s" % (rec["key"], i_, m))
+                ctx.coverage["disagreements_checked"] += 1
+
+
+# ------------------------------------------------------------------ the constructors compute_wp uses, judged on states
+def helpers_stage(ctx, impl):
+    """expr.neg / conj / implies / eq / ... are what compute_wp assembles conditions from: the value of
+    what they return must be the logical combination of the values of their arguments, in every state."""
+    X = impl.expr
+    rng = ctx.rng("helpers")
+    vs = ["a", "b", "x"]
+    grid = small_grid(vs)
+    spec1 = {"neg": lambda p: None if type(p) is not bool else (not p), "uminus": lambda p: None if type(p) is not int else -p}
+    spec2 = {"conj": lambda p, q: p and q, "implies": lambda p, q: (not p) or q,
+             "plus": lambda p, q: p + q, "minus": lambda p, q: p - q, "times": lambda p, q: p * q,
+             "less": lambda p, q: p < q, "less_eq": lambda p, q: p <= q, "eq": lambda p, q: p == q, "neq": lambda p, q: p != q}
+    boolean = {"neg", "conj", "implies"}
+    for _ in range(ctx.scale(400, 4000)):
+        name = rng.choice(sorted(spec1) + sorted(spec2))
+        if not hasattr(X, name):
+            continue
+        gen = (lambda: gen_cond(rng, rng.randint(0, 2), vs, ad=1)) if name in boolean else (lambda: gen_arith(rng, rng.randint(0, 2), vs))
+        args = [gen()] if name in spec1 else [gen(), gen()]
+        try:
+            res_real = getattr(X, name)(*[impl.to_real(a) for a in args])
+        except Exception as e:  # noqa
+            viol(ctx, "helper-raise:%s" % name, "expr.%s raised %s" % (name, classify_exc(e)), {"kind": "helper", "name": name, "args": args})
+            continue
+        res = impl.from_real(res_real)
+        ctx.case(("helper", name, tuple(args)), nontrivial=True)
+        ctx.count("helper:" + name)
+        for st in grid:
+            vals = [ev(a, st) for a in args]
+            want = spec1[name](*vals) if name in spec1 else spec2[name](*vals)
+            got = ev(res, st)
+            if got != want:
+                viol(ctx, "helper-meaning:%s:%s" % (name, sexp.dumps([s_expr(a) for a in args])),
+                     "expr.%s(%s) returns %s, which is %s at %s where the arguments are %s" % (
+                         name, ", ".join(str(impl.to_real(a)) for a in args), res_real, got, st, vals),
+                     {"kind": "helper", "name": name, "args": args, "state": st})
+                break
 
 
 def interp_stage(ctx):
@@ -1513,7 +1876,7 @@ def interp_stage(ctx):
             e = "(ok (%s))" % " ".join(str(f.get(v, 0)) for v in vs)
         except OutOfFuel:
             continue
-        except (Stuck, RecursionError):
+        except Stuck:
             e = "stuck"
         lines.append(sexp.dumps(["interp", 100000, s_com(c), [[sexp.enc(k), v] for k, v in sorted(st.items())], [sexp.enc(v) for v in vs]]))
         exp.append(e)
@@ -1654,7 +2017,7 @@ def translate_hoare(ctx):
 # ------------------------------------------------------------------ main
 def run(ctx):
     ctx.coverage["rule"] = (
-        "VC stream: programs of nesting depth 0-4 over 1-4 int variables (skip, assignment with +,-,*,unary -,abs,max and negative "
+        "get_vcs stream: programs of nesting depth 0-4 over 1-4 int variables (skip, assignment with +,-,*,unary -,abs,max and negative "
         "constants, sequence, conditional, annotated loop), pre/post/invariants from the assertion language (==,!=,<=,<,&,|,-->,~,"
         "if-then-else,true) in four families: all random; precondition = the wp the implementation computes; loops with pre=invariant "
         "and post implied by invariant & ~guard; perturbed hand-verified templates (nested loops). Non-trivial = depth >= 1 and at least "
@@ -1664,7 +2027,10 @@ def run(ctx):
         "contain digits, underscores, capitals (rejected by the pinned parser: counted as not evaluated); the state cell of every name is "
         "observed from parse_com, distinct names of a program must have distinct cells and the proved final state must be what the "
         "reference interpreter computes from the program text. imp.vcg stream: Valid pre c post through parse_com/parse_cond + vcg_solve "
-        "(Z3) + checker over the same name pools, judged by executing the text on states 0..2. Distinct by the printed input.")
+        "(Z3) + checker over the same name pools, judged by executing the text on states 0..2. imp.vcg_norm stream: triples built as HOL terms "
+        "with imp.Skip/Assign/Seq/Cond/While over 1-3 nat cells (random; loop-free with a precondition pinning the state; loops with pre = "
+        "invariant), depth <= 3. Constructor stream: expr.neg/conj/implies/plus/... on generated arguments. Loop guards in the loop family are "
+        "conjunctions / disjunctions in 45% of the cases. Distinct by the printed input.")
     try:
         if ctx.write_if_changed("Holpy/C20/Gen.lean", translate_hoare(ctx)):
             ctx.log("Gen.lean regenerated (changed)")
@@ -1688,7 +2054,8 @@ def run(ctx):
     replay_corpus(ctx, impl, logic)
     for name, stage in (("eval", lambda: eval_stage(ctx)), ("interp", lambda: interp_stage(ctx)), ("pp", lambda: pp_stage(ctx, impl, logic)),
                         ("com-pp", lambda: com_pp_stage(ctx, impl)), ("vcs", lambda: vcs_stage(ctx, impl, logic)), ("sem", lambda: sem_stage(ctx)),
-                        ("vcgnat", lambda: vcgnat_stage(ctx))):
+                        ("vcgnat", lambda: vcgnat_stage(ctx)),
+                        ("vcghol", lambda: vcghol_stage(ctx)), ("helpers", lambda: helpers_stage(ctx, impl))):
         stage()
         ctx.log("stage %s done (%d cases so far)" % (name, ctx.coverage["evaluations"]))
 
@@ -1724,6 +2091,10 @@ def replay_one(ctx, impl, logic, r):
         sem_replay(ctx, r)
     elif kind == "compp":
         check_com_roundtrip(ctx, impl, tup(r["com"]))
+    elif kind == "vcghol":
+        vcghol_case(ctx, HolBuilder(), tup(r["pre"]), tup(r["com"]), tup(r["post"]), "checked", [], [])
+    elif kind == "helper":
+        helper_replay(ctx, impl, r)
     elif kind == "vcgnat":
         vcgnat_case(ctx, NatFront(), tup(r["pre"]), tup(r["com"]), tup(r["post"]))
 
@@ -1732,6 +2103,20 @@ def sem_replay(ctx, r):
     F = NatFront()
     res = sem_case(ctx, F, tup(r["com"]), dict(r["init"]))
     ctx.log("eval_Sem on %r from %s: %s" % (r["src"], r["init"], "agrees with the reference interpreter: %s" % (res[2],) if isinstance(res, tuple) else "no agreeing result"))
+
+
+def helper_replay(ctx, impl, r):
+    X = impl.expr
+    args = [tup(a) for a in r["args"]]
+    res = impl.from_real(getattr(X, r["name"])(*[impl.to_real(a) for a in args]))
+    st = r["state"]
+    vals = [ev(a, st) for a in args]
+    want = {"neg": lambda p: not p, "uminus": lambda p: -p, "conj": lambda p, q: p and q, "implies": lambda p, q: (not p) or q,
+            "plus": lambda p, q: p + q, "minus": lambda p, q: p - q, "times": lambda p, q: p * q, "less": lambda p, q: p < q,
+            "less_eq": lambda p, q: p <= q, "eq": lambda p, q: p == q, "neq": lambda p, q: p != q}[r["name"]](*vals)
+    if ev(res, st) != want:
+        viol(ctx, "helper-meaning:%s:%s" % (r["name"], sexp.dumps([s_expr(a) for a in args])),
+             "expr.%s returns a condition that is %s at %s, expected %s" % (r["name"], ev(res, st), st, want), r)
 
 
 def replay(ctx, rp):
@@ -1746,26 +2131,34 @@ def replay(ctx, rp):
 
 
 MANIFEST = {
-    "text": "Lean theorems about an executable model of imperative/{expr,com,parser2}.py (with fixes C20-1..4): vcs_sound (every VC list "
-            "compute_wp/get_vcs produces is sound for partial correctness w.r.t. the big-step semantics Exec, any program/assertions/states, no "
-            "bound), exec_deterministic, interp_sound + interp_complete (fuel interpreter = Exec), print_parse_tokens / print_parse_id / "
-            "print_parse_sem_partial (the fixed printer followed by parser2's grammar as LALR-with-shift reads it returns the same condition, "
-            "on token sequences), sem_adequate (the Sem predicate of library/hoare.json, re-translated on every run, coincides with Exec on "
-            "well-sorted programs) and hoare_rules_valid (Sem_Skip, Sem_Assign and the six Hoare rules imp.vcg applies, three of which carry no "
-            "proof in the library). The model is tied to the code by differential runs: pre/post lists of every sub-command, VC ASTs and VC "
-            "strings, printer, parser (valid and token-perturbed strings, conditions and programs), expression evaluation, interpreter, "
-            "imp.eval_Sem final states. The implementation's own outputs are judged by a reference interpreter: VC truth (as the HOL terms "
-            "handed to the user) on the grid -3..3 and all visited states versus executions from every grid state satisfying the precondition; "
-            "printed-and-re-parsed conditions and convert_hol terms evaluated on the grid; eval_Sem theorems versus direct execution of the "
-            "program text (variable names of any length, name -> state cell mapping observed and required injective), exported proofs "
-            "re-checked; Valid triples proved by imp.vcg_solve through parse_com/parse_cond versus execution of the text.",
-    "note": "Trusted: Lean kernel, propext/Quot.sound, the harness (generators, reference evaluator/interpreter, hoare.json translator, HOL-term "
-            "evaluator), Lark's LALR tables and contextual lexer (grammar model tied by differential parsing), the holpy kernel for eval_Sem's "
-            "theorems. Partial: the round-trip theorem is on tokens; lex(pp e) = toks e is checked on every generated expression, not proved. Not "
-            "modelled: arrays/fields/forall (no convert_hol exists for them, so no VC can contain them), functions of arity > 2, identifiers that "
-            "are keywords, the operators >=, >, <--> and the constant false in the printed language (no concrete syntax in parser2, never produced "
-            "by compute_wp). Known: print_com cannot express a sequence whose first part ends in a conditional.",
-    "design_ref": "DESIGN.md 4/C20",
+    "text": "PROVED in Lean (about the executable model lean/Holpy/C20/Model.lean, every program / assertion / state, no bound): vcs_sound -- if "
+            "every condition in the list get_vcs returns is valid, every terminating execution from a state satisfying the precondition ends in the "
+            "postcondition; vcg_sound -- the same for the assumptions of the theorem imp.vcg/vcg_norm returns; exec_deterministic; interp_sound, "
+            "interp_complete (fuel interpreter = big-step semantics Exec); print_parse_tokens, print_parse_id, print_parse_sem_partial -- the printer "
+            "(token sequence of Op.__str__) followed by parser2's grammar (as LALR(1) with shift preference reads it) returns the same condition for "
+            "every wfC condition; parse_produces_wfC, reparse_of_parsed -- every condition the grammar returns is wfC, so that hypothesis covers all "
+            "user input; typed_total, sem_adequate, sem_adequate_ws -- the Sem predicate of library/hoare.json (re-translated each run) coincides with "
+            "Exec on programs satisfying the decidable check wsCom; hoare_rules_valid -- Sem_Skip, Sem_Assign and the six Hoare rules imp.vcg "
+            "applies hold for that Sem (three of them carry no proof in the library); sem_rules_pinned. "
+            "COMPARED per run, model against code, on generated inputs (observable results only): the list of VC strings and of VC HOL terms "
+            "get_lines/get_vcs return (as multisets), the assumptions of imp.vcg_norm's theorem on triples built as HOL terms (as a multiset), "
+            "Op.__str__, print_com, cond_parser / com_parser results (valid and token-perturbed strings), lex(pp e) = toks e, expression values, "
+            "interpreter results, eval_Sem final states; the decidable hypotheses wfC / wsCom are evaluated by the driver on every generated "
+            "condition, every VC, every cond_parser result and every generated program. "
+            "JUDGED on the implementation's own outputs by the harness' reference evaluator / interpreter on concrete states: (a) VC HOL terms all "
+            "true on -3..3 and on every visited state ==> executions from every grid state satisfying the precondition end in the postcondition "
+            "(get_vcs) -- likewise on 0..3 for imp.vcg_norm's conditions; (b) each shown VC string, re-parsed by the real parser, has the value of "
+            "its HOL term; generated conditions printed, re-parsed, and converted by convert_hol keep their value; expr.neg/conj/implies/... return "
+            "conditions with the value of the logical combination; (c) eval_Sem's theorem (names of any length, name -> cell mapping observed and "
+            "required injective) and vcg_solve-proved triples against execution of the program text.",
+    "note": "Trusted: Lean kernel, propext/Quot.sound; the harness (generators, reference evaluator/interpreter, reader of HOL terms incl. function "
+            "updates, hoare.json translator, builder of HOL triples) -- exceptions inside harness code are machinery errors (exit 2) or `broken`, "
+            "never verdicts; Lark's LALR tables and contextual lexer (the grammar model is tied by differential parsing); the holpy kernel and Z3 "
+            "for the theorems eval_Sem / vcg_solve return. Partial: the round trip is proved on tokens; lex(pp e) = toks e is compared, not proved. "
+            "Not modelled: arrays / fields / forall (convert_hol does not exist for them, get_vcs raises), functions of arity > 2, identifiers that "
+            "are keywords, >=, >, <-->, false in the printed language (no concrete syntax; never produced by compute_wp). Known finding: print_com "
+            "cannot express a sequence whose first part ends in a conditional.",
+    "design_ref": "DESIGN.md 8.11",
 }
 FINDINGS = [
     {"status": "fixed", "key": "print-parse-meaning:a - b - c == 0", "commit": "e5b8a6c",
